@@ -30,6 +30,7 @@ type verifLAnn struct {
 type verifLGhost struct {
 	ann  [2][3]verifLAnn
 	nann int
+	ttl  int64
 }
 
 func (g *verifLGhost) everAnnounced(h int) int {
@@ -95,6 +96,15 @@ func verifLCheckGet(s *LocalStore, g *verifLGhost, h int, n int, now, ttl int64,
 func verifLAnnounce(s *LocalStore, g *verifLGhost, h, p int, now int64) {
 	g.nann++
 	ip := verifLIPs[g.nann%2] // alternates, so a stale ip is visible
+	// Solver hint, not a restriction: expiry instants are ordered like the
+	// announcements (follows from at <= now and the range bound: no overflow).
+	for h := range g.ann {
+		for q := range g.ann[h] {
+			if g.ann[h][q].announced {
+				verif.Assume(now+g.ttl >= g.ann[h][q].at+g.ttl)
+			}
+		}
+	}
 	port := verif.Int("port")
 	complete := verif.Bool("complete")
 	err := s.UpdatePeer(verifLHashes[h], core.NewPeerInfo(verifLPeers[p], ip, port, false, complete))
@@ -135,7 +145,7 @@ func VerifLocalStoreHistory() {
 	steps := verif.Bound("steps", 4, 6)
 	s, clk, now, ttl := verifLSetup()
 	defer s.Close()
-	g := &verifLGhost{}
+	g := &verifLGhost{ttl: ttl}
 	for i := 0; i < steps; i++ {
 		now = verifLAdvance(clk, now)
 		// GetPeers does not modify the store, so looking only after the last
@@ -161,7 +171,7 @@ func VerifLocalStoreTwoTorrents() {
 	steps := verif.Bound("steps_two_torrents", 3, 4)
 	s, clk, now, ttl := verifLSetup()
 	defer s.Close()
-	g := &verifLGhost{}
+	g := &verifLGhost{ttl: ttl}
 	for i := 0; i < steps; i++ {
 		now = verifLAdvance(clk, now)
 		switch op := verif.Choice("op", 4); op {
@@ -186,7 +196,7 @@ func VerifLocalStoreConcurrentCleanup() {
 	verif.Option("max_preempt", verif.Bound("preemptions", 1, 2))
 	s, clk, now, ttl := verifLSetup()
 	defer s.Close()
-	g := &verifLGhost{}
+	g := &verifLGhost{ttl: ttl}
 	verifLAnnounce(s, g, 0, 0, now)
 	if verif.Bound("peers_before_race", 1, 2) == 2 {
 		now = verifLAdvance(clk, now)
